@@ -62,7 +62,7 @@ class FilePart(Part):
                     for salt in salts:
                         for nfiles in (1, 3):
                             out.append({"B": B, "networks": nets, "prefixes": pref, "salt": salt,
-                                        "nfiles": nfiles})
+                                        "nfiles": nfiles, "dump_state": "absent" if (B + nfiles) % 2 else "stale"})
         return out
 
     def _tokens(self):
@@ -104,6 +104,10 @@ class FilePart(Part):
                 argv += ["--preserve-addresses", ",".join(cfg["networks"])]
                 nets = cfg["networks"]
             netobjs = [ipaddress.ip_network(n) for n in nets]
+            if cfg.get("dump_state") == "stale":
+                # the map path already holds the map of an earlier run (other salt, other addresses)
+                with open(os.path.join(root, "map.txt"), "w") as f:
+                    f.write("10.1.2.3\t10.99.99.99\n11.22.33.44\t11.19.80.44\n2001:db8::1\t2001:db8::ffff\n")
             with seams.capture_logs():
                 main(argv)
             try:
